@@ -145,6 +145,18 @@ def gen_case(seed, idx, tier="quick"):
         colls = twins + colls if rng.random() < 0.6 else colls + twins
     elif twins:
         prior = twins
+    if rng.random() < 0.3:
+        # two windows of one sequence in the same call (what exporting query results gives): a collection with >= 2 genes
+        # is split into two collections on the same parent; the second window goes anywhere after the first, so that
+        # another sequence's collection may sit between them
+        cands = [i for i, c in enumerate(colls) if len(c["genes"]) >= 2]
+        if cands:
+            i = rng.choice(cands)
+            k = rng.randint(1, len(colls[i]["genes"]) - 1)
+            w2 = copy.deepcopy(colls[i])
+            w2["genes"], w2["feature_collections"] = w2["genes"][k:], []
+            colls[i]["genes"] = colls[i]["genes"][:k]
+            colls.insert(rng.randint(i + 1, len(colls)), w2)
     seeds = cfg["node_seeds"]
     a = rng.choice(seeds)
     b = rng.choice([s for s in seeds if s != a] or seeds)
@@ -164,7 +176,10 @@ def gen_case(seed, idx, tier="quick"):
     perturb = rng.choice([["seed", rng.randint(0, 10 ** 6)], ["draw", rng.randint(1, 50)], ["seed", 0], ["none"]])
     return {"specs": colls, "prior": prior, "args": args, "hs_a": a, "hs_b": b, "perturb": perturb, "faults": rng.random() < cfg["fault_p"],
             # the simulator owns the process-global PRNG: its state at the start of every request is part of the case
-            "prior_state": ["seed", rng.randint(0, 10 ** 6)]}
+            "prior_state": ["seed", rng.randint(0, 10 ** 6)],
+            # earlier activity on the SAME live objects: exported with another flavour / translation table / jump size, and
+            # asked for proteins and stop / start status under every table, before the export under test
+            "warm_other": rng.random() < 0.3}
 
 
 # ---------------------------------------------------------------------------------------------------------------
@@ -215,6 +230,26 @@ def h_export(req):
             out["prior_exported"] = True
         except Exception as e:
             out["prior_error"] = type(e).__name__
+    if req.get("warm_other"):
+        from inscripta.biocantor.gene.codon import TranslationTable
+
+        a0 = req["args"]
+        other = dict(a0, translation_table={"DEFAULT": "PROKARYOTE", "STANDARD": "DEFAULT", "PROKARYOTE": "STANDARD"}[a0["translation_table"]],
+                     genbank_flavor="EUKARYOTIC" if a0["genbank_flavor"] == "PROKARYOTIC" else "PROKARYOTIC",
+                     locus_tag_jump_size=a0["locus_tag_jump_size"] + 3, random_seed=12345)
+        try:
+            for c in colls:
+                for g in c.genes:
+                    for t in g.transcripts:
+                        if t.cds:
+                            for tt in TranslationTable:
+                                t.get_protein_sequence(translation_table=tt)
+                                t.cds.has_start_codon_in_specific_translation_table(tt)
+                            t.cds.has_valid_stop, t.cds.has_canonical_start_codon, t.has_in_frame_stop
+            _export(colls, other, simdisk.SimWriter())
+            out["warm_other"] = True
+        except Exception as e:
+            out["warm_other_error"] = type(e).__name__
     _perturb(req.get("prior_state", ["none"]))
     w = simdisk.SimWriter()
     try:
@@ -482,7 +517,7 @@ def check_text(text, case):
 def run_case(case):
     nd = node.nodes()
     req = {"op": "c17.export", "specs": case["specs"], "args": case["args"], "perturb": case["perturb"], "faults": case["faults"],
-           "prior_state": case.get("prior_state", ["none"]), "prior": case.get("prior") or []}
+           "prior_state": case.get("prior_state", ["none"]), "prior": case.get("prior") or [], "warm_other": bool(case.get("warm_other"))}
     a = nd.call(case["hs_a"], req)
     stats = collections.Counter()
     fs = []
@@ -498,6 +533,7 @@ def run_case(case):
     stats["prior_export_in_same_process"] += int(bool(a.get("prior_exported")))
     stats["strain_twin_in_same_call"] += int(any(sp["sequence_name"] == "strainB" for sp in case["specs"]))
     stats["prng_perturb_" + case["perturb"][0]] += 1
+    stats["warm_other"] += int(bool(a.get("warm_other")))
     stats["flavor_" + case["args"]["genbank_flavor"]] += 1
     stats["table_" + case["args"]["translation_table"]] += 1
     fs.extend(check_text(t1, case))
@@ -723,6 +759,7 @@ def evidence(agg, tier, seed, wall, batches):
             "hashseed(second node differs)": st["hashseed_differs"],
             "earlier_export_of_a_strain_twin_in_the_same_process": st["prior_export_in_same_process"],
             "strain_twin_collection_in_the_same_call": st["strain_twin_in_same_call"],
+            "same_objects_exported_with_other_flavour_table_step_before": st["warm_other"],
         },
         "reach_probes": {
             "genes": st["genes"], "coding_transcripts": st["coding_tx"], "minus_strand_multi_block_cds": st["minus_multiblock_cds"],
